@@ -110,6 +110,34 @@ mod k {
         std::mem::forget(r);
     }
 
+    /// VERIF: {"p":"C07","tier":"quick","fns":["dns::should_ratelimit (lifted_should_ratelimit: body lifted from source)"],"bounds":"all reply sizes 12..=65535, all query sizes, every response code other than REFUSED (0..=0xfff), cookie missing / bad / good, limiter granting or refusing","oracle":"a reply that is not a REFUSED (an answer, NXDOMAIN, or the SERVFAIL sent when the upstream stayed silent) is never suppressed by the reflection limiter and never charged to it: the permitted client's one response is sent whatever the state of its source's buckets","stubs":["validate_cookie = arbitrary verdict","IpRateLimiter::check = recording stub with an arbitrary answer","serialised reply = its length"],"covers":2,"unwind":3}
+    #[kani::proof]
+    #[kani::unwind(3)]
+    fn c07_only_refused_replies_can_be_suppressed() {
+        use erbium_net::addr::WithPort as _;
+        let reply_len: usize = kani::any();
+        let in_size: usize = kani::any();
+        kani::assume(reply_len >= 12 && reply_len <= 65535 && in_size >= 12 && in_size <= 65535);
+        let rcode: u16 = kani::any();
+        kani::assume(rcode <= 0xfff && rcode != 5);
+        let cookie: u8 = kani::any();
+        kani::assume(cookie <= 2);
+        let grant: bool = kani::any();
+        let msg = MsgShim { in_size, remote_addr: std::net::Ipv4Addr::new(192, 0, 2, 7).with_port(5353), cookie };
+        let r = reply(dnspkt::RCode(rcode));
+        unsafe {
+            CHARGED = None;
+            GRANT = grant;
+        }
+        let limited = lifted_should_ratelimit(&msg, &r, &SerShim(reply_len), &RecordingLimiter);
+        let charged = unsafe { CHARGED };
+        kani::cover!(rcode == 2 && !grant && cookie == 0, "SERVFAIL, no cookie, bucket empty");
+        kani::cover!(rcode == 0 && grant, "answer");
+        assert!(!limited, "a reply other than REFUSED is always sent");
+        assert!(charged.is_none(), "a reply other than REFUSED is not charged to the reflection limiter");
+        std::mem::forget(r);
+    }
+
     /// VERIF: {"p":"C16","tier":"quick","fns":["dns::should_ratelimit (lifted)","dns::bucket::GenericTokenBucket::check"],"bounds":"every REFUSED reply create_in_error can build (size <= 425 octets, at most 127 octets larger than its query: derivation in the harness source) and every query size; bucket idle for the refill period, any clock","oracle":"the cost charged for it is granted by a bucket that has been idle for MAX_TOKENS/TOKENS_PER_SECOND seconds: a quiet source does get its REFUSED, whatever the size of the reply","stubs":["cookie validation = arbitrary verdict","IpRateLimiter::check = recording stub","bucket clock = harness clock"],"covers":1,"unwind":3}
     #[kani::proof]
     #[kani::unwind(3)]
